@@ -72,11 +72,17 @@ TIE = {
            'expand_derivatives (open recursion) = getValueAux / Model.getValue (getValue_tie, getValueRec_tie). Domain: '
            'arithmetic right-hand sides (opqFree), states with initial values.',
     'C11': 'Tied (Tie/Printer*.lean; python builds strings, the model layout trees, every statement is "if the children print '
-           'as flatten of their model tree, the method returns flatten of the parent\'s model tree"): _bracket, _bracket_args, '
-           '_print_And/Or, _print_Function, _print_Pow / _print_ordinary_pow, _print_Relational, _print_ternary / '
-           '_print_Piecewise, _print_Add, number / symbol / constant printers, emptyPrinter, doprint\'s trig rewriting; for '
-           '_print_Mul only the classification loop (mulClassify_tie, mulLoop_tie): its sign extraction and string assembly '
-           'are NOT tied.',
+           'as flatten of their model tree, the method returns flatten of the parent\'s model tree"): EVERY method of '
+           'printer.py - _bracket, _bracket_args, _print_And/Or, _print_Function, _print_Pow / _print_ordinary_pow, '
+           '_print_Relational, _print_ternary / _print_Piecewise, _print_Add, _print_Mul completely (sign extraction, '
+           'classification loop, string assembly with the pow_brackets fix-up: printMul_tie), number / symbol / constant / '
+           'Derivative / bool printers, emptyPrinter, doprint\'s trig rewriting. The recursion is closed '
+           '(Tie/PrinterClosed.lean: gprint_pr, doprint_closed, by induction on the height) and Props/C11Gen.lean restates '
+           'print_groups, print_means, print_rejects for the GENERATED printer (gen_print_groups, gen_print_means, '
+           'gen_doprint_means, gen_print_rejects), in both directions (a model ValueError makes the generated printer raise '
+           'ValueError). Domain: C11.wf, products have at least two factors, no symbol name starts with "-". Reverting any of '
+           'the three printer fix: commits breaks the build. Trusted leaves: sympy precedence, as_coeff_Mul / _keep_coeff / '
+           'make_args, the MRO dispatch table.',
     'C12': 'Tied (Tie/Sing*.lean): _generate_piecewise = C12.generate (swap, both comparisons, interpolation formula), '
            '_remove_singularities = C12.removeSing, remove_fixable_singularities = C12.traverse (never raises; the unit hung on '
            'every re-created quantity is a unit of the model\'s store: C18 creation site), _fix_expr_parts completely '
